@@ -56,7 +56,9 @@ def _minimise_child(prop, tier, case, vjson, opts):
     ctx = eng.worker_init(prop, tier, opts)
     try:
         v = Violation.from_json(vjson)
+        core.set_min_budget(75.0)
         small = eng.minimise(ctx, case, v)
+        core.set_min_budget(None)
         res = eng.execute(ctx, small, EventLog(0))
         again = [x for x in res[0] if x.key() == v.key()]
         if not again:           # minimiser lost it: fall back to the original
@@ -226,6 +228,8 @@ def cmd_check(args):
     wall = time.monotonic() - t0
     cov = eng.coverage(merged, tier, prop) if _takes_prop(eng.coverage) else \
         eng.coverage(merged, tier)
+    if hasattr(eng, "post_batch") and not args.no_selfcheck:
+        cov.update(eng.post_batch(tier, master, opts))
     cov["runs_per_hour"] = int(merged["runs"] / max(wall, 1e-9) * 3600)
     cov["seeds"] = {"master_seed": master, "first_run_index": merged["first"],
                     "last_run_index": merged["last"],
